@@ -313,7 +313,9 @@ func (p *Process) Start() {
 	c = p.newCtrl("batchrelease", "br-ctrl")
 	must(batchrelease.Add(c.mgr))
 	c = p.newCtrl("deployment", "deploy-ctrl")
-	kube := newKubeClientset(s.NewHandle("deploy-ctrl", p, true))
+	kh := s.NewHandle("deploy-ctrl", p, true)
+	kh.noYield = true // client-go's fake clientset runs reactors under its own mutex: parking there would block other tasks on a non-durable lock
+	kube := newKubeClientset(kh)
 	must(deployment.VerifAdd(c.mgr, deployment.VerifNewReconciler(c.mgr.client, kube,
 		appslisters.NewDeploymentLister(p.dIndexer), appslisters.NewReplicaSetLister(p.rsIndexer), nopRecorder{})))
 
